@@ -2,7 +2,7 @@
   Layer `Note` × vector clocks (property C03, note edge): definitions.
 
   The Note acceptor (`Model/Note.lean`: the current /repo/internal/note.c, i.e. after the repair of
-  defect F5, + the nsync_wait_n path of nsync_note_wait) is run in lock-step with the generic
+  the defects F5 and F4 / F7, + the nsync_wait_n path of nsync_note_wait) is run in lock-step with the generic
   vector-clock machine `NsyncVerif.VC`.  The events of the acceptor carry the memory order each
   atomic operation REQUESTS in the log, and the acceptor rejects every atomic event whose order is
   not the one of the ATM_* macro at that site (`noteSiteOrd`, `step_orders`).  The machine is fed
@@ -39,21 +39,21 @@ open NsyncVerif
     `k` = ordinal of the macro EXPANSION in that translation unit (the harness numbers them with
     `__COUNTER__`, so the six uses of NOTIFIED_TIME count: NOTIFIED_TIME (n) is
     `ATM_LOAD_ACQ (&(n_)->notified) != 0 ? nsync_time_zero : (n_)->expiry_time`, common.h:212).
-    Source lines are those of the current /repo/internal/note.c. -/
+    Source lines are those of the current /repo/internal/note.c (after the repair of F4 / F7). -/
 def noteSiteOrd : Site → Ord
-  | .childLd => .acq    -- note.c/0   note.c:85   t = NOTIFIED_TIME (n)                  (note_notify_child)
-  | .childSt => .rel    -- note.c/1   note.c:89   ATM_STORE_REL (&n->notified, 1)        <- the notifier's store
-  | .childWake => .rel  -- note.c/2   note.c:93   ATM_STORE_REL (&nw->waiting, 0)
-  | .notifyLd => .acq   -- note.c/3   note.c:120  t = NOTIFIED_TIME (n)                  (notify)
-  | .dlLd1 => .acq      -- note.c/4   note.c:146  if (ATM_LOAD_ACQ (&n->notified) != 0)  <- the observer's fast path
-  | .dlLd2 => .acq      -- note.c/5   note.c:150  ntime = NOTIFIED_TIME (n)              (nsync_note_notified_deadline_)
-  | .newLd => .acq      -- note.c/6   note.c:190  NOTIFIED_TIME (parent)                 (nsync_note_new)
-  | .newSt => .rel      -- note.c/7   note.c:199  ATM_STORE_REL (&n->notified, 1)        <- born notified (F5 repair)
-  | .enqLd => .acq      -- note.c/8   note.c:279  ntime = NOTIFIED_TIME (n)              (note_enqueue)
-  | .enqSt1 => .rlx     -- note.c/9   note.c:282  ATM_STORE (&nw->waiting, 1)
-  | .enqSt0 => .rlx     -- note.c/10  note.c:285  ATM_STORE (&nw->waiting, 0)
-  | .deqLd => .acq      -- note.c/11  note.c:298  ntime = NOTIFIED_TIME (n)              (note_dequeue)
-  | .deqSt => .rlx      -- note.c/12  note.c:301  ATM_STORE (&nw->waiting, 0)
+  | .childLd => .acq    -- note.c/0   note.c:109  t = NOTIFIED_TIME (n)                  (note_notify_child)
+  | .childSt => .rel    -- note.c/1   note.c:113  ATM_STORE_REL (&n->notified, 1)        <- the notifier's store
+  | .childWake => .rel  -- note.c/2   note.c:117  ATM_STORE_REL (&nw->waiting, 0)
+  | .notifyLd => .acq   -- note.c/3   note.c:149  t = NOTIFIED_TIME (n)                  (notify)
+  | .dlLd1 => .acq      -- note.c/4   note.c:175  if (ATM_LOAD_ACQ (&n->notified) != 0)  <- the observer's fast path
+  | .dlLd2 => .acq      -- note.c/5   note.c:179  ntime = NOTIFIED_TIME (n)              (nsync_note_notified_deadline_)
+  | .newLd => .acq      -- note.c/6   note.c:219  NOTIFIED_TIME (parent)                 (nsync_note_new)
+  | .newSt => .rel      -- note.c/7   note.c:228  ATM_STORE_REL (&n->notified, 1)        <- born notified (F5 repair)
+  | .enqLd => .acq      -- note.c/8   note.c:315  ntime = NOTIFIED_TIME (n)              (note_enqueue)
+  | .enqSt1 => .rlx     -- note.c/9   note.c:318  ATM_STORE (&nw->waiting, 1)
+  | .enqSt0 => .rlx     -- note.c/10  note.c:321  ATM_STORE (&nw->waiting, 0)
+  | .deqLd => .acq      -- note.c/11  note.c:334  ntime = NOTIFIED_TIME (n)              (note_dequeue)
+  | .deqSt => .rlx      -- note.c/12  note.c:337  ATM_STORE (&nw->waiting, 0)
   | .waitInit => .rlx   -- wait.c/0   wait.c:54   ATM_STORE (&nw[i].waiting, 0)
   | .other => .rlx      -- never accepted on a note location
 
